@@ -76,6 +76,13 @@ fn main() {
                             accepted += 1;
                             distinct_accepting_shapes.insert((dir, segs.clone()));
                             let ps = p.to_str().unwrap().to_string();
+                            // the lexical axiom axiom_confined_has_name: accepted by validation (= the executable meaning of
+                            // path_confined) and the directory has a final component => the path has one
+                            if d.file_name().is_some() && p.file_name().is_none() {
+                                println!("COUNTEREXAMPLE: served directory {:?}, request file name {:?}: accepted path {:?} has no final component although the directory has one (axiom_confined_has_name)", dir, name, ps);
+                                println!("cases={} accepted={}", cases, accepted);
+                                std::process::exit(1);
+                            }
                             if !stays_inside(&ps, dir) {
                                 println!("COUNTEREXAMPLE: served directory {:?}, request file name {:?}", dir, name);
                                 println!("   convert_file_path(name) = {:?}", convert_file_path(&name));
